@@ -151,6 +151,10 @@ pub struct WitnessSpec {
     /// an equal commitment)
     #[serde(default)]
     pub same_as_prev: Vec<usize>,
+    /// one blinding factor (opening j, position k) with a special value: 0 zero, 1 one, 2 minus one,
+    /// 3 the opening's value as a scalar, 4 the recovery seed (if any), 5 equal to blinding (0, 0)
+    #[serde(default)]
+    pub special_blind: Option<(usize, usize, u8)>,
 }
 
 pub fn scalar_from_seed(tag: &str, seed: u64, i: u64) -> Scalar {
@@ -166,6 +170,26 @@ impl WitnessSpec {
         if self.zero_blind.contains(&j) {
             return Scalar::ZERO;
         }
+        if let Some((sj, sk, kind)) = self.special_blind {
+            if sj == j && sk == k {
+                match kind {
+                    0 => return Scalar::ZERO,
+                    1 => return Scalar::ONE,
+                    2 => return -Scalar::ONE,
+                    3 => return Scalar::from(self.values.get(j).copied().unwrap_or(0)),
+                    4 => {
+                        if let Some(s) = self.seed() {
+                            return s;
+                        }
+                    },
+                    _ => {
+                        if (j, k) != (0, 0) {
+                            return scalar_from_seed("blind", self.blind_seed, 0);
+                        }
+                    },
+                }
+            }
+        }
         scalar_from_seed("blind", self.blind_seed, (j as u64) << 8 | k as u64)
     }
 
@@ -178,6 +202,13 @@ impl WitnessSpec {
         self.seed_nonce.map(|s| match s {
             0 => Scalar::ZERO,
             1 => Scalar::ONE,
+            2 => -Scalar::ONE,
+            3 => {
+                // 2^252: a canonical scalar just below the group order with only bit 252 set
+                let mut b = [0u8; 32];
+                b[31] = 0x10;
+                Scalar::from_bytes_mod_order(b)
+            },
             _ => scalar_from_seed("seed_nonce", s, 0),
         })
     }
@@ -200,11 +231,13 @@ impl WitnessSpec {
                 6 => (1u64 << rng.below(cfg.bits as u64)) - 1,
                 _ => rng.range(0, max),
             };
-            let p = match rng.below(5) {
+            let p = match rng.below(6) {
                 0 => None,
                 1 => Some(0),
                 2 => Some(v),
                 3 => Some(rng.range(0, v)),
+                // exactly half of the range, where it is a legal promise
+                4 if cfg.bits >= 2 && v >= 1u64 << (cfg.bits - 1) => Some(1u64 << (cfg.bits - 1)),
                 _ => None,
             };
             values.push(v);
@@ -212,9 +245,8 @@ impl WitnessSpec {
         }
         let seed_nonce = if allow_seed && cfg.m == 1 && rng.chance(1, 2) {
             Some(match rng.below(12) {
-                0 => 0,
-                1 => 1,
-                _ => rng.next_u64() | 2,
+                0 => rng.below(4),
+                _ => rng.next_u64() | 4,
             })
         } else {
             None
@@ -230,6 +262,34 @@ impl WitnessSpec {
                 if promises[j].is_some() {
                     promises[j] = Some(0);
                 }
+            }
+        }
+        // boundary at 64 bits: promises of one aggregate that add up to exactly 2^64
+        if cfg.bits == 64 && cfg.m >= 2 && rng.chance(1, 4) {
+            let top = 1u64 << 63;
+            match rng.below(3) {
+                0 => {
+                    for j in 0..2 {
+                        values[j] = top + rng.below(1 << 20);
+                        promises[j] = Some(top);
+                    }
+                },
+                1 => {
+                    values[0] = u64::MAX;
+                    promises[0] = Some(u64::MAX);
+                    values[1] = 1 + rng.below(1000);
+                    promises[1] = Some(1);
+                },
+                _ if cfg.m >= 4 => {
+                    for j in 0..4 {
+                        values[j] = (1u64 << 62) + rng.below(1 << 20);
+                        promises[j] = Some(1u64 << 62);
+                    }
+                },
+                _ => {},
+            }
+            for j in 0..cfg.m.min(4) {
+                zero_blind.retain(|z| *z != j);
             }
         }
         // boundary: an opening that repeats its predecessor (two equal commitments in one aggregate)
@@ -249,6 +309,7 @@ impl WitnessSpec {
             seed_nonce,
             zero_blind,
             same_as_prev,
+            special_blind: if rng.chance(1, 8) { Some((rng.usize_below(cfg.m), rng.usize_below(cfg.ext), rng.below(6) as u8)) } else { None },
         }
     }
 }
